@@ -64,15 +64,19 @@ def cases(tier, rnd):
         ds = DataSet(vals, Fraction(1, 5) if c["outliers"] else Fraction(0))
         alpha = rnd.choice(["3/10", "1/1", "7/2"])
         states = all_canon_trees(c["n"], outliers=c["outliers"])
+        # the run loop calls relabel_nodes() at the end of every sweep, so the moves see trees named in preorder
+        # (top clone = 0) as well as trees named bottom-up by the SMC placements: both namings are exercised
+        relabel = True if c["move"] == "subtree" else (gid % 2 == 1)
         for f, o in states:
-            out.append(dict(c, group=f"g{gid}", nstates=len(states), data=ds.to_json(), alpha=alpha, start=[f, o], pin=None))
+            out.append(dict(c, group=f"g{gid}", nstates=len(states), data=ds.to_json(), alpha=alpha, start=[f, o], pin=None, relabel=relabel))
         gid += 1
     for p in PINNED:
         ds = DataSet([[[Fraction(x) for x in row] for row in v] for v in p["vals"]], Fraction(1, 5) if p["outliers"] else Fraction(0))
         states = all_canon_trees(p["n"], outliers=p["outliers"])
         for f, o in states:
             out.append({"move": "subtree", "n": p["n"], "outliers": p["outliers"], "kind": p["kind"], "N": p["N"], "theta": p["theta"],
-                        "group": p["pin"], "nstates": len(states), "data": ds.to_json(), "alpha": p["alpha"], "start": [f, o], "pin": p["pin"]})
+                        "group": p["pin"], "nstates": len(states), "data": ds.to_json(), "alpha": p["alpha"], "start": [f, o], "pin": p["pin"],
+                        "relabel": True})
     out.sort(key=lambda c: (c["move"] != "subtree", -c["n"]))
     return out
 
@@ -85,7 +89,10 @@ def real_row(case, ds, td):
         clear_proposal_dist_caches()
         kernel = setup_kernel(float(ds.outlier_prob), case["kind"], rng, td)
         s = setup_samplers(kernel, case["N"], float(ds.outlier_prob), float(Fraction(case["theta"])), rng, td)
-        t = getattr(s, which).sample_tree(build_tree(ds.real, f, o))
+        t0 = build_tree(ds.real, f, o)
+        if case.get("relabel"):
+            t0.relabel_nodes()
+        t = getattr(s, which).sample_tree(t0)
         ff, oo = extract(t)
         if sorted(oo + [i for d in _dps(ff) for i in d]) != list(range(ds.n)):
             raise AssertionError("data not conserved")
